@@ -21,7 +21,8 @@ REPO = _resolve_repo()
 LEAN = os.path.join(VERIF, "lean")
 HARNESS = os.path.join(VERIF, "harness")
 WORK = os.path.join(VERIF, "work")
-PV = os.path.join(HARNESS, "target", "debug", "pv")
+TARGET = os.environ.get("CARGO_TARGET_DIR") or os.path.join(HARNESS, "target")
+PV = os.path.join(TARGET, "debug", "pv")
 MODEL = os.path.join(LEAN, ".lake", "build", "bin", "parol_model")
 ALLOWED_AXIOMS = {"propext", "Classical.choice", "Quot.sound"}
 BASE_TRUST = [
